@@ -12,6 +12,7 @@ import (
 //	C02  probe of every decoder + deep fault enumeration on a few kinds
 //	C04  sweep of every kind (round trip, hash, transport) + decoded-corrupted corpus
 //	C35  sessions with per-frame faults + header / truncation / declared-length enumeration
+//	C15  (send-cache half) block messages served to several peers through WriteMessage's cache
 func (Engine) Generate(r *core.Rng, property, tier string) *core.Plan {
 	p := &core.Plan{Knobs: map[string]int64{}, Meta: map[string]string{}}
 	g := &planGen{r: r, p: p, tier: tier}
@@ -23,6 +24,8 @@ func (Engine) Generate(r *core.Rng, property, tier string) *core.Plan {
 		g.c04()
 	case "C35":
 		g.c35()
+	case "C15":
+		g.c15()
 	default:
 		g.c02()
 	}
@@ -298,4 +301,67 @@ func (g *planGen) enumLink() link {
 	l := g.link(true)
 	l.DelayMs = nil
 	return l
+}
+
+// c15 draws the send-cache workload: families of 1..6 blocks served to 1..4
+// peers, more distinct (block, confirmed) keys than the cache holds, resends
+// while cached and after eviction, a block gaining its confirmation between
+// two sends, slow peers holding a served payload while others evict it,
+// stalled peers, unrelated messages in between.
+func (g *planGen) c15() {
+	r := g.r
+	faultFree := r.Intn(5) == 0 // one peer, a healthy link
+	if faultFree {
+		g.p.Meta["stratum"] = "fault-free"
+	} else {
+		g.p.Meta["stratum"] = "faults"
+	}
+	ns := r.Range(2, 4)
+	if g.tier == "thorough" {
+		ns = r.Range(3, 8)
+	}
+	for s := 0; s < ns; s++ {
+		st := Step{Op: "sendcache", Seed: r.U64(), NBlk: r.Pick(2, 2, 3, 3, 2, 1) + 1, Peers: r.Range(1, 4)}
+		if faultFree {
+			st.Peers = 1
+		}
+		n := r.Range(6, 40)
+		monotone := r.Bool(0.5)
+		confirmed := make([]bool, st.NBlk)
+		t := int64(0)
+		for i := 0; i < n; i++ {
+			sd := Send{Blk: r.Intn(st.NBlk), Peer: r.Intn(st.Peers)}
+			switch r.Intn(4) {
+			case 0: // the same block again
+				if i > 0 {
+					sd.Blk = st.Sends[i-1].Blk
+				}
+			case 1: // the one before
+				if i > 1 {
+					sd.Blk = st.Sends[i-2].Blk
+				}
+			}
+			if monotone {
+				if !confirmed[sd.Blk] && r.Bool(0.3) {
+					confirmed[sd.Blk] = true
+				}
+				sd.Confirm = confirmed[sd.Blk]
+			} else {
+				sd.Confirm = r.Bool(0.5)
+			}
+			t += int64(r.Pick(3, 3, 2, 1)) * int64(r.Range(0, 40))
+			sd.SlotMs = t
+			if !faultFree {
+				if r.Bool(0.25) {
+					sd.SlowMs = int64(r.LogUniform(1, 5000))
+				}
+				if r.Intn(25) == 0 {
+					sd.Stall = true
+				}
+			}
+			sd.Other = r.Intn(6) == 0
+			st.Sends = append(st.Sends, sd)
+		}
+		g.p.Add(st)
+	}
 }
